@@ -34,6 +34,18 @@ QUERIES = [
     ("L.groupby('a').c.max()", False, 1, None, "groupby"),
     ("L.groupby('a').size()", False, 1, None, "groupby"),
     ("L.groupby('a').b.sum(split_out=2)", False, 1, None, "groupby"),
+    ("L.groupby('a').b.var()", False, 1, None, "groupby"),
+    ("L.groupby('a').c.std(split_every=2)", False, 1, None, "groupby"),
+    ("L.groupby('a').agg({'c': 'sum', 'b': 'mean'})", False, 1, None, "groupby-agg"),
+    ("L.groupby('a').c.agg(['sum', 'count'], split_every=2)", False, 1, None, "groupby-agg"),
+    ("L.groupby('a').agg({'c': ['sum', 'max']}, split_out=2)", False, 1, None, "groupby-agg"),
+    ("L.groupby('b', dropna=False).c.sum()", False, 1, None, "groupby-dropna"),
+    ("L.groupby('b', dropna=False).c.mean(split_every=2)", False, 1, None, "groupby-dropna"),
+    ("L.groupby('b', dropna=False).size(split_out=2)", False, 1, None, "groupby-dropna"),
+    ("L.groupby('b', dropna=False).c.var(split_every=2)", False, 1, None, "groupby-dropna"),
+    ("L.groupby('b', dropna=False).agg({'c': 'sum'}, split_every=2)", False, 1, None, "groupby-dropna"),
+    ("L.groupby('b', dropna=False).c.agg(['max', 'count'], split_every=2)", False, 1, None, "groupby-dropna"),
+    ("L.groupby('b', dropna=True).c.sum(split_every=2)", False, 1, None, "groupby-dropna"),
     ("L.merge(R, on='a')", False, 2, None, "join"),
     ("L.merge(R, on='a', how='left')", False, 2, None, "join"),
     ("L.merge(R, on='a', how='right')", False, 2, None, "join"),
